@@ -1,9 +1,11 @@
 SPECIFICATION PSpec
 CONSTANTS
-  RunTypes = {"r_arg_base", "r_usa_nw", "r_dji_res", "r_wor", "r_bad", "r_alb_kf", "r_arg_kf", "r_arg_herd"}
+  RunTypes = {"r_arg_base", "r_usa_nw", "r_dji_res", "r_wor", "r_bad", "r_alb_kf", "r_arg_kf", "r_arg_herd", "r_arg_own48"}
   Failing = {"r_bad"}
   Patched = {"r_alb_kf"}
   Overriding = {"r_arg_herd"}
+  YamlAble = {"r_arg_base", "r_arg_own48"}
+  OwnHorizon = {"r_arg_own48"}
   CountryOf <- CountryTab
   OptOf <- OptTab
   TablePos <- PosTab
